@@ -74,7 +74,16 @@ def run_slices(ctx, prop):
     taken = {}
     for n in names:
         cfg = write_cfg(ctx.work, n)
-        res = tlc.check(ctx.work, "MC_LokyExecutor", cfg, workers=16, timeout=3000, coverage=(prop == "C01"), heap="12g")
+        extra = n not in QUICK.get(prop, [])
+        try:
+            res = tlc.check(ctx.work, "MC_LokyExecutor", cfg, workers=16, timeout=(1500 if extra else 3000), coverage=(prop == "C01"), heap="12g")
+        except tlc.TLCError as ex:
+            if extra and "TLC timeout" in str(ex):
+                # a thorough-only slice that does not finish in its budget is reported, it does not break the check
+                ctx.notes.append("LokyExecutor.tla slice %s was not exhausted within 1500 s on this machine (no violation found so far)" % n)
+                ctx.extra.setdefault("slices_not_exhausted", []).append(n)
+                continue
+            raise
         ctx.add_tlc(res, "LokyExecutor.tla slice %s (switches = code as it is)" % n)
         if prop == "C01":
             # vacuity guard: which labelled steps of the specification are never taken by any slice of this run
